@@ -535,11 +535,63 @@ WITNESS_D7 = {
 }
 
 
+DEFAULT_SCHEMA_TEMPLATES = [
+    "insert into tgt with {c} as (select a, b from src) select {a}.a, {a}.b from {c} {a}",
+    "insert into tgt with {c} as (select a, b from src) select a, b from {c}",
+    "insert into tgt select {d}.x from (select {a}.x from s1 {a}) {d}",
+    "with {c} as (select k from t1), {c}_2 as (select k from {c}) insert into out1 select k from {c}_2",
+    "create table made as with {c} as (select p.k, q.v from t1 p join t2 q on p.k = q.k) select {a}.k, {a}.v from {c} as {a}",
+    "update tgt set c = {a}.d from src {a}",
+]
+DEFAULT_SCHEMA_NAMES = [{"c": "cte1", "a": "x", "d": "dt"}, {"c": "zzfresh", "a": "y9", "d": "q7"}, {"c": "w_orders", "a": "o", "d": "sub"}]
+
+
+def part_default_schema(chk, st):
+    """the renaming families under a configured DEFAULT_SCHEMA (scoped override): statement-local names (CTE names, table aliases,
+    derived-table aliases) renamed consistently to fresh names must leave tables and end-to-end pairs unchanged ALSO when a default
+    schema is set - a lookup of local names that consults the schema of the parsed table only shows there (seeded change C08-5).
+    Implementation against itself; the default-schema-free twin of every text is part of the comparison."""
+    jobs = []
+    for ti, t in enumerate(DEFAULT_SCHEMA_TEMPLATES):
+        for ni, names in enumerate(DEFAULT_SCHEMA_NAMES):
+            for ds in (None, "zq9"):
+                for d in ("ansi", "non-validating"):
+                    if d == "non-validating" and t.startswith("update"):
+                        continue
+                    jobs.append((ti, ni, ds, d, t.format(**names)))
+    res = sqlimpl.run_cases([{"sql": sql, "dialect": d, "default_schema": ds, "want": ("tables", "columns")} for _, _, ds, d, sql in jobs],
+                            chunksize=8)
+    by = {}
+    for (ti, ni, ds, d, sql), r in zip(jobs, res):
+        by[(ti, ni, ds, d)] = (sql, summary(impl_res(r)))
+    n = 0
+    for (ti, ni, ds, d), (sql, s1) in sorted(by.items(), key=lambda kv: (kv[0][0], kv[0][1], str(kv[0][2]), kv[0][3])):
+        if ni == 0:
+            continue
+        sql0, s0 = by[(ti, 0, ds, d)]
+        if s0 is None or s1 is None:
+            st.reject[d] += 1
+            continue
+        n += 1
+        chk.count("default-schema:" + canon_json([sql0, sql, ds, d]), bool(s0.get("pairs")))
+        if s0 != s1:
+            chk.violation(f"lineage changes when statement-local names are renamed to fresh names under DEFAULT_SCHEMA={ds!r}",
+                          {"kind": "default-schema-pair", "sql": sql0, "renamed": sql, "dialect": d, "default_schema": ds,
+                           "impl": [s0, s1]})
+            return n
+    return n
+
+
 def run(chk):
     if not chk.lean.driver_ok:
         chk.stale.append({"kind": "driver", "why": "model driver does not build"})
         return chk.finish(level="proof", rule="driver unavailable")
     drv = Driver()
+    _st0 = sqlcheck.Stats()
+    chk.coverage["default_schema_pairs"] = part_default_schema(chk, _st0)
+    if chk.violations:
+        sqlimpl.close_pool()
+        return chk.finish(level="proof", rule="renaming under a default schema", trusted_base=["harness/c08.py"])
     thorough = chk.tier == "thorough"
     base_dialects = list(sqlcheck.QUICK_DIALECTS)
     extra_dialects = [d for d in sqlcheck.all_dialects() if d not in base_dialects] if thorough else []
@@ -778,6 +830,14 @@ def run(chk):
 
 
 def replay(chk, obj):
+    if obj.get("replay", {}).get("kind") == "default-schema-pair":
+        r = obj["replay"]
+        out = sqlimpl.run_cases([{"sql": q, "dialect": r["dialect"], "default_schema": r["default_schema"], "want": ("tables", "columns")}
+                                 for q in (r["sql"], r["renamed"])])
+        s0, s1 = summary(impl_res(out[0])), summary(impl_res(out[1]))
+        print(json.dumps({"original": s0, "renamed": s1}, indent=1, default=str))
+        sqlimpl.close_pool()
+        return 1 if s0 != s1 else 0
     r = obj["replay"]
     if r.get("kind") == "c08-pair" and "ast" in r:
         drv = Driver()
